@@ -140,7 +140,7 @@ Proof.
   unfold degree. f_equal. pose proof (Permutation_length (inc_rel v)) as E. rewrite !map_length in E. exact E.
 Qed.
 
-Definition EC (x : Z * option Z) : list Z := [fst x; sd0 (snd x)].
+Definition EC (x : Z * option Z) : list Z := [fst x; (match snd x with Some _ => 1 | None => 0 end)%Z; sd0 (snd x)].
 Lemma ecode_cov a : ecode a = EC (ecov a).
 Proof. destruct a as [o [s|]]; reflexivity. Qed.
 
